@@ -8,7 +8,8 @@ META = dict(
         quick="whole runs, Retry/AsyncRetry/Policy call+execute with on_metric + on_log (+ capture_timeline for execute): "
               "N=3 attempts over success, {TRANSIENT, PERMANENT} x {exception (distinct type per attempt), result}, "
               "AbortRetryError; symbolic max_attempts, TRANSIENT limit, abort_if answers, handler decisions, budget; timed "
-              "job with post-sleep deadline stop; policy-level job: 3 calls through Policy/AsyncPolicy sharing a real "
+              "job with post-sleep deadline stop; a job whose sleep handler takes a solver-real time (deadline may pass while "
+              "it decides); policy-level job: 3 calls through Policy/AsyncPolicy sharing a real "
               "breaker (threshold 1) with symbolic outcomes and clock advances (breaker events carry attempt 0 + state)",
         thorough="N=4; 4 policy calls",
     ),
@@ -227,6 +228,12 @@ def jobs(tier):
         out.append(dict(name=f"timed:{entry}", harness="rv.props.c14:h_run",
                         params=dict(entry=entry, N=2 if q else 3, kinds=["ok", "exc", "res"], classes=["TRANSIENT"],
                                     timed=True, strat=dict(raw="real"), operation=OPNAME),
+                        max_wall_s=wall, weight=2))
+    # a sleep handler that takes time: the deadline may pass while it decides; still exactly one terminal event
+    for entry in ["retry.call", "retry.execute", "aretry.call", "aretry.execute"]:
+        out.append(dict(name=f"slow_handler:{entry}", harness="rv.props.c14:h_run",
+                        params=dict(entry=entry, N=2 if q else 3, kinds=["exc", "res"], classes=["TRANSIENT"], timed=True,
+                                    handler=True, handler_time=True, strat=dict(raw="real"), operation=OPNAME),
                         max_wall_s=wall, weight=2))
     for a in (False, True):
         out.append(dict(name=f"policy:{'async' if a else 'sync'}", harness="rv.props.c14:h_policy",
